@@ -2,6 +2,8 @@ package symmetry
 
 import (
 	"fmt"
+	"os"
+	"sort"
 	"go/token"
 	"go/types"
 	"strings"
@@ -73,6 +75,19 @@ func (a *Analysis) constStringsOf(v ssa.Value, seen map[ssa.Value]bool, out *[]s
 		return true
 	}
 	switch x := v.(type) {
+	case *ssa.UnOp, *ssa.Field:
+		// an entry of a constant table: every value of that column
+		if col, ok := tables.ColumnValues(a.P, v); ok && len(col) > 0 {
+			for _, cv := range col {
+				sv, isS := cv.(string)
+				if !isS {
+					return false
+				}
+				*out = append(*out, sv)
+			}
+			return true
+		}
+		return false
 	case *ssa.Phi:
 		for _, e := range x.Edges {
 			if !a.constStringsOf(e, seen, out) {
@@ -305,6 +320,67 @@ func (a *Analysis) exitSig(st *evalState, from, b *ssa.BasicBlock) string {
 // checkSites enumerates all observation and escape sites and decides them.
 func (a *Analysis) checkSites() {
 	for _, fn := range a.funcs {
+		rows := a.rowIndices(fn)
+		if len(rows) == 0 {
+			a.checkSitesOf(fn)
+			continue
+		}
+		// one pass per row assignment; a site is a violation if it is one in any row
+		var idxs []ssa.Value
+		total := 1
+		for iv, n := range rows {
+			idxs = append(idxs, iv)
+			total *= n
+		}
+		sort.Slice(idxs, func(i, j int) bool { return idxs[i].Name() < idxs[j].Name() })
+		if total > 64 {
+			a.site("O1", fn, fn.Pos(), "row constants of "+fn.Name(), "violation", "too many combinations of table rows to decide the sites of this function (undecided ⇒ reported)")
+			continue
+		}
+		base := len(a.Sites)
+		var acc []Site
+		at := map[string]int{}
+		rank := map[string]int{"ok": 0, "exempt": 1, "violation": 2}
+		for combo := 0; combo < total; combo++ {
+			a.curRow = map[ssa.Value]int{}
+			c := combo
+			for _, iv := range idxs {
+				a.curRow[iv] = c % rows[iv]
+				c /= rows[iv]
+			}
+			for _, s := range a.sources {
+				if s.Fn == fn {
+					s.reach = map[int]map[*ssa.BasicBlock]bool{}
+				}
+			}
+			a.Sites = a.Sites[:base]
+			a.checkSitesOf(fn)
+			// merge this row's sites into the function's: violation > exempt > ok
+			for _, st := range a.Sites[base:] {
+				key := st.Rule + "|" + fmt.Sprint(st.Pos) + "|" + st.Expr
+				if i, had := at[key]; had {
+					if rank[st.Status] > rank[acc[i].Status] {
+						acc[i] = st
+					}
+					continue
+				}
+				at[key] = len(acc)
+				acc = append(acc, st)
+			}
+		}
+		a.Sites = append(a.Sites[:base], acc...)
+		a.curRow = nil
+		for _, s := range a.sources {
+			if s.Fn == fn {
+				s.reach = map[int]map[*ssa.BasicBlock]bool{}
+			}
+		}
+	}
+}
+
+// checkSitesOf enumerates the observation and escape sites of one function and decides them.
+func (a *Analysis) checkSitesOf(fn *ssa.Function) {
+	{
 		for _, b := range fn.Blocks {
 			for _, ins := range b.Instrs {
 				switch x := ins.(type) {
@@ -422,6 +498,11 @@ func (a *Analysis) checkBranch(fn *ssa.Function, iff *ssa.If) {
 		return
 	}
 	if a.multi[c] {
+		if os.Getenv("VERIF_DBGROWS") != "" {
+			if bo, ok := c.(*ssa.BinOp); ok {
+				fmt.Fprintf(os.Stderr, "multi cond %s in %s: X=%s multi=%v src=%v ; Y=%s multi=%v src=%v row=%v\n", c.Name(), fn.Name(), bo.X.Name(), a.multi[bo.X], a.srcOf[bo.X] != nil, bo.Y.Name(), a.multi[bo.Y], a.srcOf[bo.Y] != nil, a.rowConstOf(bo.Y) != nil)
+			}
+		}
 		a.site("O1", fn, iff.Pos(), "branch on "+describeCond(c), "violation", "the condition depends on case-variant data in a way that cannot be tabulated as a function of one input byte (undecided ⇒ reported)")
 		return
 	}
@@ -576,6 +657,13 @@ func (a *Analysis) checkBinOp(fn *ssa.Function, x *ssa.BinOp) {
 	}
 	_, cx := x.X.(*ssa.Const)
 	_, cy := x.Y.(*ssa.Const)
+	// (an entry of a constant table is a constant within one row assignment)
+	if !cx && a.rowConstOf(x.X) != nil {
+		cx = true
+	}
+	if !cy && a.rowConstOf(x.Y) != nil {
+		cy = true
+	}
 	// two different sources
 	if sx != nil && sy != nil && sx != sy && (sx.Variant || sy.Variant) {
 		fx, fy := a.imageLetters(x.X, sx, x.Block()), a.imageLetters(x.Y, sy, x.Block())
